@@ -272,4 +272,7 @@ def run(res, tier):
     ]
     res.rule = ("one case = one feasible returning MIR path; for each, z3 searches for an input assignment on that "
                 "path whose documented outcome differs from the path's outcome; evaluations = z3 queries")
+    import argslice
+    for nm, fl in (("disable_rsync", "--disable-rsync"), ("disable_rrdp", "--disable-rrdp")):
+        argslice.check_cli_flag(res, E, mprop, nm, fl, "a transport the operator disabled is then used (or an enabled one is not)")
     mprop.finish_engine(res, E)
